@@ -61,7 +61,7 @@ CHECKS = {
     "C06": dict(cat="model_checking", ref="§4 C06", tech="algebraic certificate checked by TLC (ALG_Engine: Krylov rank, P(T)=0, x^(2^(n/2)) = JUMP(x), x^(2^(3n/4)) = LONG_JUMP(x) in GF(2)[x]/P) + trace validation of the real jump()/long_jump() against the reference jump loop",
                 text="For all 2^n states of each of the 5 jump-capable TLA+ engines the published jump polynomials are shown to equal x^(2^(n/2)) and x^(2^(3n/4)) modulo the characteristic polynomial, which TLC itself verifies from the engine's Krylov vectors; the 12 real types' jump functions are bound to the reference jump loop on unit-bit and random states (state image and following outputs), in several orders.",
                 note=TB + "; the characteristic polynomial comes from an untrusted helper and is re-checked in TLC; linearity of the implementation's jump is sampled"),
-    "C07": dict(cat="model_checking", ref="§4 C07", tech="algebraic certificate checked by TLC (ALG_Engine: Krylov rank n, P(T)e0=0, x^(2^n)=x, x^((2^n-1)/q)#1 for every prime q, exact re-multiplication of the factorisation) + transition matrices of every state-advancing path (native call, the other next_*, fill_bytes(8)) extracted from the code and validated against T resp. T^2; differing paths decided on their own matrix; non-injective steps found among recorded states with related words and replayed",
+    "C07": dict(cat="model_checking", ref="§4 C07", tech="algebraic certificate checked by TLC (ALG_Engine: Krylov rank n, P(T)e0=0, x^(2^n)=x, x^((2^n-1)/q)#1 for every prime q, exact re-multiplication of the factorisation) + transition matrices of every state-advancing path (native call, the other next_*, fill_bytes(8)) extracted from the code and validated against T resp. T^2; differing paths decided on their own matrix; non-injective steps found among recorded states with related words and replayed; every constructor (incl. Default::default() where a type has it) must not yield the all-zero state (Trace_Alg)",
                 text="The single-cycle property is decided for all 2^n-1 non-zero states of the 7 engines by checking that x is primitive modulo the (verified) characteristic polynomial; each of the 15 linear types' transition matrices is recorded from the code on the full basis and must equal the specification's; if it does not, the certificate is run on the extracted matrix and an alarm needs a certificate (non-zero state stepping to zero replayed on the code, a Krylov space of too small dimension, or T^((2^n-1)/q) = I).",
                 note=TB + "; published factorisation of 2^n-1 (primality of the large factors is trusted); hints untrusted and re-checked; implementation linearity sampled"),
 }
